@@ -44,9 +44,13 @@ def r1_export(run, F):
                 run.ob("R1-EXPORT-TABLE", v, ok, F.where(b, a), "%s must export nothing (None): builds %s" % (v, built))
                 continue
             ok = built == [w]
-            # flags come from extract_public(flags).map(|flags| ..)
+            # bindings by what they are bound to (`$1.flags` is the flags field of the declaration passed in), not by name
+            env = hirq.canon_params(b)
+            base = hirq.canon_of(m["scrut"], env)
+            hirq.bind_pattern(alt, base, env)
+            # flags come from extract_public(<the declaration's flags>).map(|x| ..)
             ep = [c for c in hirq.calls(a["body"]) if hirq.callee(c) == "alpha::expander::extract_public"]
-            ok = ok and len(ep) == 1 and hirq.local_name_of(ep[0]["a"][0]) == "flags"
+            ok = ok and len(ep) == 1 and hirq.canon_of(ep[0]["a"][0], env) == "%s.flags" % base
             run.ob("R1-EXPORT-TABLE", v, ok, F.where(b, a),
                    "%s must be exported as %s with flags from extract_public(flags): builds %s" % (v, w, built),
                    sample={"variant": v, "exported_as": built})
@@ -57,11 +61,14 @@ def r1_export(run, F):
                     for fname in fields_of[w]:
                         e = got.get(fname)
                         if fname == "flags":
-                            good = e is not None and hirq.local_name_of(e) == "flags"
+                            # the parameter of the closure handed to extract_public(..).map
+                            from rules import origins as _or
+                            oe = _or.origins(b["hir"], e, b.get("params", ())) if e is not None else set()
+                            good = ("closureparam",) in oe and ("call", "alpha::expander::extract_public") in oe
                         else:
                             ee = hirq.unwrap_trivial(e) if e else {}
                             good = ee.get("k") == "MethodCall" and ee.get("name") == "clone" and \
-                                hirq.local_name_of(hirq.unwrap_trivial(ee["recv"])) == fname
+                                hirq.canon_of(ee["recv"], env) == "%s.%s" % (base, fname)
                         run.ob("R1-EXPORT-FIELDS", "%s->%s.%s" % (v, w, fname), good, F.where(b, node),
                                "exported %s.%s must be a clone of the original's `%s`" % (w, fname, fname))
                     if v == "Function":
@@ -116,8 +123,12 @@ def r2_expand(run, F):
         if cl.get("k") != "Closure":
             continue
         body = hirq.unwrap_trivial(cl["body"])
-        if body.get("k") == "Binary" and body.get("op") == "Ne" and {hirq.local_name_of(body["lhs"]), hirq.local_name_of(body["rhs"])} == {"from", "to"}:
-            self_import = True
+        prm = cl.get("params", [])
+        pair = hirq.strip_ref(prm[0]) if len(prm) == 1 else {}
+        comps = [q.get("lid") for q in pair.get("pats", [])] if pair.get("k") == "Tuple" and len(pair.get("pats", [])) == 2 else []
+        if body.get("k") == "Binary" and body.get("op") == "Ne" and len(comps) == 2 and None not in comps and \
+                {hirq.unwrap_trivial(body["lhs"]).get("lid"), hirq.unwrap_trivial(body["rhs"]).get("lid")} == set(comps):
+            self_import = True      # retain(|(a, b)| a != b) on the pair set, whatever the components are called
         if body.get("k") == "Unary" and body.get("op") == "Not" and any(hirq.callee(x) == "alpha::expander::is_import" for x in hirq.calls(body)):
             drop_imports = c
     run.ob("R2-SELF-IMPORT", "imports.retain(from != to)", self_import, F.where(b), "a module importing itself must not splice its own declarations")
@@ -151,18 +162,32 @@ def r2_expand(run, F):
     cons = [hirq.short(p) for p, _ in hirq.constructs(b["hir"])]
     run.ob("R2-UNRESOLVED", "poisoned", "Error::UnresolvedImport" in cons and "Error::UnresolvedImportWithHint" in cons and "Declaration::Poison" in cons,
            F.where(b), "an import that cannot be resolved must become Declaration::Poison(UnresolvedImport[WithHint])")
-    # pair orientation: insert((offset_of_includer, offset)); loop destructures (includer, includee); export from includee, splice into includer
+    # pair orientation, by role: insert((<index of the module being scanned>, <result of get_key_offset>)); the splicing loop
+    # destructures (p0, p1) from the pair set, reads modules[p1] (export source) and writes modules[p0] (splice target)
+    from rules import origins as _or2
     ins = [c for c in hirq.calls(b["hir"]) if c.get("k") == "MethodCall" and c.get("name") == "insert"]
     ok = False
+    pair_set_lid = None
     for c in ins:
         t = hirq.unwrap_trivial(c["a"][0])
-        if t.get("k") == "Tup" and [hirq.local_name_of(x) for x in t["a"]] == ["offset_of_includer", "offset"]:
-            ok = True
+        if t.get("k") == "Tup" and len(t["a"]) == 2:
+            o0 = _or2.origins(b["hir"], t["a"][0], b.get("params", ()))
+            o1 = _or2.origins(b["hir"], t["a"][1], b.get("params", ()))
+            first_is_index = any(k[0] == "call" and str(k[1]).endswith("::enumerate") for k in o0) and ("tuplepos", 0) in o0
+            second_is_found = ("call", "alpha::expander::get_key_offset") in o1
+            if first_is_index and second_is_found and not ("call", "alpha::expander::get_key_offset") in o0:
+                ok = True
+                pair_set_lid = hirq.unwrap_trivial(c["recv"]).get("lid")
     run.ob("R2-PAIR-ORIENTATION", "insert((includer, includee))", ok, F.where(b), "imports are recorded as (includer, includee)")
-    idx = [n for n in walk(b["hir"]) if n.get("k") == "Index" and hirq.local_name_of(hirq.unwrap_trivial(n["e"])) == "modules"]
-    names = [hirq.local_name_of(n["i"]) for n in idx]
-    run.ob("R2-PAIR-ORIENTATION", "read includee, write includer", names == ["offset_of_includee", "offset_of_includer"], F.where(b),
-           "declarations are exported from modules[includee] and spliced into modules[includer]: %s" % names)
+    mod_param = [q.get("lid") for q in b.get("params", [])][:1]
+    idx = [n for n in walk(b["hir"]) if n.get("k") == "Index" and hirq.unwrap_trivial(n["e"]).get("lid") in mod_param]
+    pos = []
+    for n in idx:
+        oi = _or2.origins(b["hir"], n["i"], b.get("params", ()))
+        pos.append(sorted(k[1] for k in oi if k[0] == "tuplepos"))
+    reads = [any((hirq.callee(c) or "") == "alpha::expander::export" for c in hirq.calls(b["hir"]))]
+    run.ob("R2-PAIR-ORIENTATION", "read includee, write includer", pos == [[1], [0]] and all(reads), F.where(b),
+           "declarations are exported from modules[<second component>] and spliced into modules[<first component>]: index components %s" % pos)
     hs = [s for s in apimisuse.hash_iterations(F.lib, lambda x: x["npath"].startswith("alpha::expander::"))]
     run.ob("R5-DETERMINISTIC-SPLICE", "no hash iteration in expander", not hs, F.where(b),
            "the order in which imports are spliced must not depend on hash iteration order: %s" % [d for _, _, d in hs])
@@ -170,7 +195,7 @@ def r2_expand(run, F):
     T = F.lib.types
     ok = False
     for n in walk(b["hir"]):
-        if n.get("k") == "Let" and n["pat"].get("name") == "imports":
+        if n.get("k") == "Let" and n["pat"].get("lid") == pair_set_lid and pair_set_lid is not None:
             ok = T[n["pat"]["t"]].startswith("std::collections::BTreeSet<") or T[n["pat"]["t"]].startswith("std::vec::Vec<")
     run.ob("R5-DETERMINISTIC-SPLICE", "imports is an ordered collection", ok, F.where(b), "imports must be a BTreeSet/Vec")
 
